@@ -219,18 +219,37 @@ func goValue(fr *frame, v value) (interface{}, bool) {
 			return nil, true
 		}
 		// error / Stringer
-		if _, isBasic := v.t.Underlying().(*types.Basic); !isBasic {
-			for _, m := range []string{"Error", "String"} {
-				if fn := findMethod(fr.i, v.t, m); fn != nil && fn.Signature.Params().Len() == 0 && fn.Signature.Results().Len() == 1 {
-					if b, ok := fn.Signature.Results().At(0).Type().Underlying().(*types.Basic); ok && b.Kind() == types.String {
-						s := call(fr.i, fr, token.NoPos, fn, []value{v.v})
-						if gs, ok := s.(string); ok {
-							return gs, true
-						}
+		_, isBasic := v.t.Underlying().(*types.Basic)
+		if isBasic && (isSym(v.v) || !isConcreteScalar(v.v)) {
+			return goValue(fr, v.v)
+		}
+		for _, m := range []string{"Error", "String"} {
+			if fn := findMethod(fr.i, v.t, m); fn != nil && fn.Signature.Params().Len() == 0 && fn.Signature.Results().Len() == 1 {
+				if b, ok := fn.Signature.Results().At(0).Type().Underlying().(*types.Basic); ok && b.Kind() == types.String {
+					s := call(fr.i, fr, token.NoPos, fn, []value{v.v})
+					gs, ok := s.(string)
+					if !ok {
 						return nil, false
 					}
+					if isBasic {
+						// a named scalar with a String method: the text for %v %s %q %x %X, the number for %d etc.
+						return fmtNamed{v.v, gs}, true
+					}
+					return gs, true
 				}
 			}
+		}
+		if stt, ok := v.t.Underlying().(*types.Struct); ok {
+			if g, ok := goValue(fr, v.v); ok {
+				if fs, ok := g.(fmtStruct); ok && len(fs.vals) == stt.NumFields() {
+					for i := 0; i < stt.NumFields(); i++ {
+						fs.names = append(fs.names, stt.Field(i).Name())
+					}
+					return fs, true
+				}
+				return g, true
+			}
+			return nil, false
 		}
 		return goValue(fr, v.v)
 	case bool, int, int8, int16, int32, int64, uint, uint8, uint16, uint32, uint64, uintptr, float32, float64, string:
@@ -249,6 +268,30 @@ func goValue(fr *frame, v value) (interface{}, bool) {
 			out[i] = g
 		}
 		return out, true
+	case array:
+		return goValue(fr, []value(v))
+	case *omap:
+		out := map[interface{}]interface{}{}
+		if v == nil {
+			return out, true
+		}
+		for _, e := range v.entries {
+			if e.dead {
+				continue
+			}
+			k, ok := goValue(fr, e.key)
+			x, ok2 := goValue(fr, e.val)
+			if !ok || !ok2 {
+				return nil, false
+			}
+			switch k.(type) {
+			case bool, int, int8, int16, int32, int64, uint, uint8, uint16, uint32, uint64, uintptr, float32, float64, string:
+			default:
+				k = fmt.Sprint(k)
+			}
+			out[k] = x
+		}
+		return out, true
 	case structure:
 		out := make([]interface{}, len(v))
 		for i, e := range v {
@@ -258,7 +301,7 @@ func goValue(fr *frame, v value) (interface{}, bool) {
 			}
 			out[i] = g
 		}
-		return fmtStruct(out), true
+		return fmtStruct{vals: out}, true
 	case *value:
 		if v == nil {
 			return "<nil>", true
@@ -268,19 +311,54 @@ func goValue(fr *frame, v value) (interface{}, bool) {
 	return fmt.Sprintf("<%T>", v), true
 }
 
-type fmtStruct []interface{}
+// fmtNamed formats like a value of a named basic type that has a String (or Error) method.
+type fmtNamed struct {
+	v interface{}
+	s string
+}
 
-func (s fmtStruct) String() string {
+func (n fmtNamed) Format(st fmt.State, verb rune) {
+	switch verb {
+	case 'v', 's', 'q', 'x', 'X':
+		if !(verb == 'v' && st.Flag('#')) {
+			fmt.Fprintf(st, fmt.FormatString(st, verb), n.s)
+			return
+		}
+	}
+	fmt.Fprintf(st, fmt.FormatString(st, verb), n.v)
+}
+
+func isConcreteScalar(v value) bool {
+	switch v.(type) {
+	case bool, int, int8, int16, int32, int64, uint, uint8, uint16, uint32, uint64, uintptr, float32, float64, string:
+		return true
+	}
+	return false
+}
+
+type fmtStruct struct {
+	names []string
+	vals  []interface{}
+}
+
+func (s fmtStruct) Format(st fmt.State, verb rune) {
+	plus := verb == 'v' && st.Flag('+') && len(s.names) == len(s.vals)
 	var sb strings.Builder
 	sb.WriteByte('{')
-	for i, e := range s {
+	for i, e := range s.vals {
 		if i > 0 {
 			sb.WriteByte(' ')
 		}
-		fmt.Fprint(&sb, e)
+		if plus {
+			sb.WriteString(s.names[i])
+			sb.WriteByte(':')
+			fmt.Fprintf(&sb, "%+v", e)
+		} else {
+			fmt.Fprint(&sb, e)
+		}
 	}
 	sb.WriteByte('}')
-	return sb.String()
+	st.Write([]byte(sb.String()))
 }
 
 func goArgs(fr *frame, vs []value) ([]interface{}, bool) {
@@ -506,26 +584,33 @@ func extErrorf(fr *frame, args []value) value {
 func extErrorsIs(fr *frame, args []value) value {
 	err := args[0].(iface)
 	target := args[1].(iface)
-	for depth := 0; depth < 64; depth++ {
-		if err.t == nil {
-			return target.t == nil
+	if err.t == nil || target.t == nil {
+		return err.t == nil && target.t == nil
+	}
+	var walk func(e iface, depth int) bool
+	walk = func(e iface, depth int) bool {
+		if e.t == nil || depth > 64 {
+			return false
 		}
-		if sameType(err.t, target.t) && types.Comparable(err.t) {
-			if P.truth(equalsV(err.t, err.v, target.v)) {
+		if sameType(e.t, target.t) && types.Comparable(e.t) {
+			if P.truth(equalsV(e.t, e.v, target.v)) {
 				return true
 			}
 		}
-		fn := findMethod(fr.i, err.t, "Unwrap")
-		if fn == nil || fn.Signature.Results().Len() != 1 {
-			return false
+		if fn := findMethod(fr.i, e.t, "Is"); fn != nil && fn.Signature.Params().Len() == 1 && fn.Signature.Results().Len() == 1 {
+			if P.truth(call(fr.i, fr, token.NoPos, fn, []value{e.v, target})) {
+				return true
+			}
 		}
-		next, ok := call(fr.i, fr, token.NoPos, fn, []value{err.v}).(iface)
-		if !ok {
-			return false
+		// Unwrap() error and Unwrap() []error (errors.Join, several %w)
+		for _, u := range errUnwrapList(fr, e) {
+			if walk(u, depth+1) {
+				return true
+			}
 		}
-		err = next
+		return false
 	}
-	return false
+	return walk(err, 0)
 }
 
 func noopPrint(fr *frame, args []value) value { return tuple{0, iface{}} }
